@@ -18,11 +18,35 @@ DummyConf == [nw |-> 0, p |-> 1, wps |-> TRUE, inl |-> TRUE]
 TraceConfigs == {DummyConf}
 
 VARIABLES l, bad,
-  held   \* per thread: the task it popped but has not started yet (the worker's deferred steal-ring
+  held,  \* per thread: the task it popped but has not started yet (the worker's deferred steal-ring
          \* check has a schedule point between the pop and the call), 0 = none
-tvars == <<vars, l, bad, held>>
+  lag    \* per thread inside a wait, per tier class: polling-round markers of OTHER classes it passed
+         \* since it last attempted this class while a task sat in this class (see WaitersPollQueuedWork)
+tvars == <<vars, l, bad, held, lag>>
 
-TraceInit == l = 2 /\ bad = {} /\ held = [t \in AllThreads |-> 0] /\ Hdr.e = "Header" /\ InitFor(DummyConf)
+(* The lower bound of Polled(t) for waiters.  The model's termination argument gives a thread inside *)
+(* wait() (or a waiting loop) the central queue, every locality ring and every steal ring: a waiter  *)
+(* never parks, so nothing repairs a tier it skips - unlike an idle worker, which may trust the      *)
+(* lossy central-queue hint because the time-out probe of a PARKED worker repairs it.  The real      *)
+(* waiter must therefore attempt every class once per polling round, whatever hint words say.  One   *)
+(* round passes one marker per class (the step that starts the attempt):                             *)
+(*   TpStealCentral (try_dequeue)   TpRingsLoadCount (scan of all rings)   TpRingsLoadSteal (scan of *)
+(*   all steal rings).  lag[t][c] counts the markers of other classes that t passed fruitlessly      *)
+(* while a task was queued in class c (sizes are bound to the real queues by ProjOK); in the cycle   *)
+(* C R S C R S it never exceeds 2.  Any note of t (begin/end/call/ret) or a pop by t resets it.      *)
+Classes == {"central", "ring", "steal"}
+MarkerOf(e) == CASE e = "TpStealCentral" -> "central" [] e = "TpRingsLoadCount" -> "ring"
+                 [] e = "TpRingsLoadSteal" -> "steal" [] OTHER -> "none"
+ZeroLag == [c \in Classes |-> 0]
+QueuedIn(c) == \E k \in Tasks : tier[k][1] = c
+Waiting(t) == ~Idle(t) /\ Top(t).m \in {"wait", "pfor"}
+LagAfter(t, e, noted) ==
+  IF noted \/ tier' # tier \/ ~Waiting(t) THEN ZeroLag
+  ELSE IF MarkerOf(e) = "none" THEN lag[t]
+  ELSE [c \in Classes |-> IF c = MarkerOf(e) \/ ~QueuedIn(c) THEN 0 ELSE lag[t][c] + 1]
+
+TraceInit == l = 2 /\ bad = {} /\ held = [t \in AllThreads |-> 0] /\ lag = [t \in AllThreads |-> ZeroLag]
+             /\ Hdr.e = "Header" /\ InitFor(DummyConf)
 
 NTasksOf(p) == Len(Progs[p].tasks)
 NSetsOf(p) == Len(Progs[p].sets)
@@ -88,17 +112,19 @@ TraceStep ==
        \/ /\ ev.e = "Reset"
           /\ ResetTo([nw |-> ev.nw, p |-> ev.p, wps |-> TRUE, inl |-> TRUE])
           /\ held' = [t \in AllThreads |-> 0]
+          /\ lag' = [t \in AllThreads |-> ZeroLag]
           /\ UNCHANGED bad
        \/ /\ ev.e = "End"
           /\ AllDone
-          /\ UNCHANGED <<vars, bad, held>>
+          /\ UNCHANGED <<vars, bad, held, lag>>
        \/ /\ ev.e \in {"Deadlock", "Stalled"}     \* the execution did not terminate: judged by Terminated
           /\ bad' = bad \cup {ev.e}
-          /\ UNCHANGED <<vars, held>>
+          /\ UNCHANGED <<vars, held, lag>>
        \/ /\ ev.e \notin {"Reset", "End", "Deadlock", "Stalled", "Header"}
           /\ ev.t \in Threads
           /\ IF ev.n = <<>> THEN Silent2(ev.t) ELSE Noted(ev.t, ev.n)
           /\ ev.chk = 1 => ProjOK(ev.s, tier')
+          /\ lag' = [lag EXCEPT ![ev.t] = LagAfter(ev.t, ev.e, ev.n # <<>>)]
           /\ UNCHANGED bad
   /\ l' = l + 1
 
@@ -106,6 +132,9 @@ TraceSpec == TraceInit /\ [][TraceStep]_tvars
 
 (* C06 on the recorded executions: none of them ended in a deadlock or exceeded the step bound *)
 Terminated == bad = {}
+(* ... and no thread inside a wait went around its polling loop past a queued task without attempting *)
+(* the tier the task sits in (the starvation itself, seen after 1.5 rounds instead of the step bound) *)
+WaitersPollQueuedWork == \A t \in AllThreads : \A c \in Classes : lag[t][c] <= 2
 
 TraceAccepted ==
   LET d == TLCGet("stats").diameter IN
